@@ -82,7 +82,9 @@ def vtyOf (t : OTy) : Option VTy :=
 
 /-- a value conforms to a type, to depth `n`: scalars and slices as before; for a struct (or pointer to
 struct) type, every member the checker resolves on it (`fieldTypeT`, name resolution of the current code)
-can be fetched from the value — with or without `?.` — and conforms to the member's type to depth `n - 1`.
+can be fetched from the value — with or without `?.` — and conforms to the member's type to depth `n - 1`,
+and every method (or function-typed member) the checker resolves on it is an entry of the value that can be
+called.
 In particular a pointer member that is typed as a struct is not nil.  Types outside the fragment
 (interfaces, maps, functions) carry no claim. -/
 def Conf : Nat → Val → OTy → Prop
@@ -93,9 +95,10 @@ def Conf : Nat → Val → OTy → Prop
     | some (.sl k) => ArrOf v k
     | some .anys => ∃ xs, v = .arr .iface xs
     | some (.obj _) =>
-      (∃ nm p fs, v = .struct nm p fs) ∧
-      ∀ name τ, fieldTypeT .asIs t name = some τ →
-        ∃ w, (∀ ns, fetchV v (.str name) ns = .ok w) ∧ Conf n w (some τ)
+      ∃ nm p fs, v = .struct nm p fs ∧
+        (∀ name τ, fieldTypeT .asIs t name = some τ →
+          ∃ w, (∀ ns, fetchV v (.str name) ns = .ok w) ∧ Conf n w (some τ)) ∧
+        (∀ name fn im, methodTarget .asIs t name = some (fn, im) → ∃ id, lookupKv name fs = some (.fn id))
     | some .mapAny => ∃ kvs, v = .map kvs
     | some .any => True
     | none => True
